@@ -19,6 +19,7 @@ partial def asPV (j : Json) : R PV := do
   | "float" => pure (.float (← getNat j "v"))
   | "str" => pure (.str (← getStr j "v"))
   | "np" => pure (.npScalar (← getInt j "v"))
+  | "npx" => pure (.npExotic (← getStr j "dtype") (← getInt j "v"))
   | "arr" => pure (.arr (← getStr j "dtype") (← getNats j "shape") (← getInts j "strides") (← getInt j "offset")
                         (← getInts j "mem"))
   | "list" => do
@@ -48,6 +49,7 @@ partial def jPV : PV → Json
   | .float f => Json.mkObj [("t", "float"), ("v", jNat f)]
   | .str s => Json.mkObj [("t", "str"), ("v", Json.str s)]
   | .npScalar i => Json.mkObj [("t", "np"), ("v", jInt i)]
+  | .npExotic d i => Json.mkObj [("t", "npx"), ("dtype", Json.str d), ("v", jInt i)]
   | .arr d sh st off mem =>
     -- `items`: the elements in row-major order (for an array that came back: its buffer)
     Json.mkObj [("t", "arr"), ("dtype", Json.str d), ("shape", jNats sh), ("strides", jInts st),
@@ -189,6 +191,12 @@ def runC18 (op : String) (j : Json) : R Json := do
     -- `_try_make_number` on each string
     let ss ← fld j "strings" >>= asList asStr
     pure (Json.mkObj [("values", jList jNum (ss.map tryMakeNumber))])
+  | "uniclass" =>
+    -- the tables of `pyNorm` over ALL non-ASCII code points: [code point, digit value] and the white space
+    let cps := (List.range 1114112).filter fun n => 128 ≤ n && !(55296 ≤ n && n ≤ 57343)
+    let digits := cps.filterMap fun n => (uniDigitVal (Char.ofNat n)).map fun d => Json.arr #[jNat n, jNat d]
+    let spaces := cps.filter fun n => isUniSpace (Char.ofNat n)
+    pure (Json.mkObj [("digits", Json.arr digits.toArray), ("spaces", jNats spaces)])
   | "csv" =>
     -- the csv transport alone: records -> text -> records; the real writer's text through the model reader
     let rows ← fld j "rows" >>= asList (asList asStr)
@@ -200,7 +208,7 @@ def runC18 (op : String) (j : Json) : R Json := do
                       ("real_parsed", jOpt (fun (t : String) => jList (jList Json.str)
                           ((csvRead d t.toList).map fun r => r.map String.ofList)) real)])
   | "table" =>
-    -- `write_tsv` then `read_tsv` on file texts (4 = the n_significant_figures `write_tsv` passes)
+    -- `write_tsv` then `read_tsv` on file texts
     let rowsJ ← fld j "rows" >>= asArr
     let rows ← rowsJ.mapM fun r => do
       let cells ← asArr r
@@ -212,12 +220,16 @@ def runC18 (op : String) (j : Json) : R Json := do
     let first ← optText j "first"
     let isTsv ← getBool j "tsv"
     let real ← optText j "impl_text"
-    match writeTsv (renderW 4) rows first, writeTsvFile isTsv (renderW 4) rows first with
+    -- `n_significant_figures` (default 4)
+    let n := match j.getObjVal? "nsf" with
+      | .ok v => (v.getNat?.toOption).getD 4
+      | .error _ => 4
+    match writeTsv (renderW n) rows first, writeTsvFile isTsv (renderW n) rows first with
     | some file, some text =>
       pure (Json.mkObj [("header", jList Json.str file.1),
                         ("text", Json.str (String.ofList text)),
                         ("back", jOpt jRowsNum (readTsvFile tryMakeNumber text)),
-                        ("expected", jRowsNum (expectedRows file.1 (rows.map fun r => r.map fun fc => (fc.1, obsW 4 fc.2)))),
+                        ("expected", jRowsNum (expectedRows file.1 (rows.map fun r => r.map fun fc => (fc.1, obsW n fc.2)))),
                         ("real_parsed", jOpt (fun (t : String) => jOpt jRowsNum (readTsvFile tryMakeNumber t.toList)) real),
                         ("real_header", jOpt (fun (t : String) =>
                             let lines := fileLines t.toList
